@@ -313,3 +313,20 @@ placement_harness!(c11_writer_placement_rank_8, 7, 7);
 placement_harness!(c11_writer_placement_ranks_1_2, 0, 1);
 placement_harness!(c11_writer_placement_ranks_4_5, 3, 4);
 placement_harness!(c11_writer_placement_ranks_7_8, 6, 7);
+
+// ---- the mailbox view the writer starts from ----------------------------------------------------------------------------------
+
+/// `ArrayMap::<Square, PieceIndex>::from(&Board)`: at every square the piece index standing there (NONE = 0 on an empty
+/// square); fully symbolic position, symbolic square
+#[kani::proof]
+#[kani::unwind(66)]
+fn c11_mailbox_of_board_contract() {
+    let p: [u64; 16] = kani::any();
+    kani::assume(boards_wf_unrolled(&p));
+    let board = board_from(&p);
+    let m = ArrayMap::<Square, PieceIndex>::from(&board);
+    let t = any_square();
+    assert!(m[t].0 == code_at(&p, sq_u8(t)));
+    kani::cover!(m[t].0 == 14, "black king reachable");
+    kani::cover!(m[t].0 == 0, "empty square reachable");
+}
